@@ -5,7 +5,7 @@ CLAIM = dict(
     engine='crosshair',
     technique='CrossHair-driven exploration of WriteLAS.write_curve_and_array_section_to_las -> LASRead over symbolic channel subsets (incl. unknown names), field width, '
               'decimal places, reduction method, frame count and value selection',
-    text='Bounded symbolic checking: for a frame array of five channels (float64, float32, int32, a two-valued float64 channel, a four-valued int16/uint8 channel whose mean and median are fractional), every requested subset (also with an unknown '
+    text='Bounded symbolic checking: for a frame array of five channels (float64, float32, int32, a two-valued float64 channel of dimensions (1, 2), a four-valued int16/uint8 channel whose mean and median are fractional), every requested subset (also with an unknown '
          'name), field widths 4/8/16 (4/5/7/8/12/16 thorough), 1 or 3 decimals (1..4), every reduction method and 8 value patterns (zero, negative, wider than the field, rounding '
          'boundary, null) the curve section, the ~A heading and every data row list exactly the first channel plus the requested ones, in order, and reading the text back '
          'gives the same names, units, frame count and every value within half a unit of the last printed decimal.',
